@@ -19,6 +19,9 @@ func TestCheck(t *testing.T) {
 			"Non-trivial = the run saw refusals and more than burst admissions; distinct = hash of the case and its counts.")
 		r.Assume("the harness clock (time.Since, monotonic) and the bucket's clock (time.Now, monotonic reading) advance at the same rate")
 		r.Assume("slack 1e-6 tokens covers float64 rounding inside the bucket; qps values are integers < 2^24 so the float32 conversion in NewTokenBucketRateLimiter is exact")
+		longDone := make(chan struct{})
+		go func() { defer close(longDone); longWindow(r) }()
+		refusedByValidation(r)
 		smallIdleScenarios(r)
 		boundaryScenarios(r)
 		siblingHammered(r)
@@ -27,6 +30,7 @@ func TestCheck(t *testing.T) {
 		partialSyncScenarios(r)
 		limiterRuns(r)
 		endToEnd(r)
+		<-longDone
 		r.Require(r.Counter("admissions_judged") >= 5000 && r.Counter("refusals_in_stretches") >= 5000, "too few token-bucket events")
 		r.Require(r.Counter("noop_syncs") >= 500, "too few no-op syncs interleaved")
 		r.Require(r.Counter("lower_bound_checks_after_observed_refusal_requiring>=1") >= 50, "too few non-trivial lower-bound checks")
@@ -38,6 +42,9 @@ func TestCheck(t *testing.T) {
 		r.Require(r.Counter("noop_limiter_mode_flips(local<->remote_without_client_sets)") >= 100, "too few limiter-mode flips")
 		r.Require(r.Quick() || (r.Counter("real_reconfigurations_delete_readd_same_values") >= 50 && r.Counter("real_reconfigurations_type_toggle_same_values") >= 50), "too few compound reconfigurations")
 		r.Require(r.Counter("e2e_refusals_429_on_post") >= 3 && r.Counter("e2e_refusals_429_on_watch") >= 3, "too few refusals on POST / watch requests end to end")
+		r.Require(r.Counter("out_of_range_pairs_ACCEPTED_by_validation") == 0 && r.Counter("out_of_range_pairs_refused_by_validation") >= 5, "validation accepts a (qps, burst) pair this check leaves out as unstorable (see out_of_range_pair_accepted_example): drive it")
+		r.Require(r.Counter("boundary_value_scenarios_beyond_2^24") >= 8, "too few boundary scenarios beyond 2^24")
+		r.Require(r.Counter("long_window_admissions") >= 40 && r.Counter("long_window_lower_bound_checks_after_refusal") >= 1, "the long-window observation saw too little")
 		r.Require(r.Counter("small_idle_scenarios") >= 30 && r.Counter("small_idle_scenarios_requiring>=1") >= 24 && r.Counter("small_idle_scenarios_reconfigured-then-idle") >= 10 && r.Counter("small_idle_scenarios_reconfigured-drained-idle") >= 10, "too few small-idle lower-bound scenarios")
 		r.Require(r.Counter("partial_sync_cases") >= 12, "too few partial-sync cases in which the faulty part really failed the sync")
 		r.Require(r.Counter("e2e_refusals_429") >= 20 && r.Counter("e2e_forwarded") >= 10, "too few end-to-end events")
